@@ -404,6 +404,51 @@ func Build(p *policy.Policy, ids []sharing.ID) (accessstructures.Monotone, error
 	panic("catalog: unknown policy kind")
 }
 
+// BuildVariant constructs the same access structure as Build from a differently LISTED description: variant v rotates
+// the clause list of a CNF by v (and reverses it for odd v), reverses the listing order inside every set, and lists the
+// parties of every hierarchical level in reverse. The described monotone function (and, for every family whose
+// documentation promises a canonical span programme, the induced MSP) is the same for every v; v = 0 is Build.
+func BuildVariant(p *policy.Policy, ids []sharing.ID, v int) (accessstructures.Monotone, error) {
+	if v == 0 {
+		return Build(p, ids)
+	}
+	rev := func(in []sharing.ID) []sharing.ID {
+		out := append([]sharing.ID{}, in...)
+		for i, j := 0, len(out)-1; i < j; i, j = i+1, j-1 {
+			out[i], out[j] = out[j], out[i]
+		}
+		return out
+	}
+	switch p.Kind {
+	case policy.CNF:
+		n := len(p.MUS)
+		sets := make([]ds.Set[sharing.ID], n)
+		for i := range p.MUS {
+			src := (i + v) % n
+			if v%2 == 1 {
+				src = (n - 1 - i + v) % n
+			}
+			sets[i] = IDSet(rev(Subset(ids, p.MUS[src]))...)
+		}
+		return wrap(cnf.NewCNFAccessStructure(sets...))
+	case policy.Hierarchical:
+		levels := make([]*hierarchical.ThresholdLevel, len(p.Levels))
+		for i, l := range p.Levels {
+			ps := make([]sharing.ID, len(l.Parties))
+			for j, x := range l.Parties {
+				ps[len(ps)-1-j] = ids[x]
+			}
+			levels[i] = hierarchical.WithLevel(l.T, ps...)
+		}
+		return wrap(hierarchical.NewHierarchicalConjunctiveThresholdAccessStructure(levels...))
+	case policy.Threshold:
+		return wrap(threshold.NewThresholdAccessStructure(uint(p.T), IDSet(rev(ids)...)))
+	case policy.Unanimity:
+		return wrap(unanimity.NewUnanimityAccessStructure(IDSet(rev(ids)...)))
+	}
+	return Build(p, ids)
+}
+
 func wrap[T accessstructures.Monotone](v T, err error) (accessstructures.Monotone, error) {
 	if err != nil {
 		return nil, err
